@@ -259,7 +259,7 @@ def do_node(world, rep, op):
 def new_root(world, op):
     directed, removal = op['directed'], op.get('removal', True)
     rep = Replica(new_graph(directed, removal), ModelGraph(directed, removal), 'root')
-    world.reps.append(rep)
+    world.add_replica(rep, op)
     world.count('root.%s.%s' % ('D' if directed else 'U', 'removal' if removal else 'accumulative'))
     return {'out': 'ok', 'fault': False, 'cls': 'root', 'keys': []}
 
@@ -337,7 +337,7 @@ def do_slice(world, rep, op):
     check_derived(world, 'C06', h, hm, cls, op)
     new = Replica(h, hm, 'slice', op['g'])
     new.shared_attrs = rep.shared_attrs = True     # time_slice shares attribute dicts (not promised otherwise)
-    world.reps.append(new)
+    world.add_replica(new, op)
     world.count('slice.' + slice_class(m, a, bb))
     return {'out': 'ok', 'fault': False, 'cls': 'slice', 'keys': [], 'new': len(world.reps) - 1}
 
@@ -431,7 +431,7 @@ def do_convert(world, rep, op):
         check_derived(world, 'C16', h, hm, cls, op)
     new = Replica(h, hm, 'to_' + op['to'], op['g'])
     new.shared_attrs = rep.shared_attrs      # deepcopy preserves sharing *inside* the copy
-    world.reps.append(new)
+    world.add_replica(new, op)
     world.count('convert.%s%s' % (op['to'], '.reciprocal' if op.get('reciprocal') else ''))
     return {'out': 'ok', 'fault': False, 'cls': 'convert', 'keys': [], 'new': len(world.reps) - 1}
 
